@@ -394,7 +394,7 @@ class ArgumentParser:
                 ):
                     default_value = kwargs.pop("default")
                     flag_name = option["flags"][0]
-                    namespace._passes[flag_name] = default_value
+                    namespace._passes[flag_name] = list(default_value)
             parser.add_argument(*option["flags"], **kwargs)
 
         # Make a best-effort attempt to parse arguments.
